@@ -179,7 +179,10 @@ def ristrettoOps : Ops Nat Nat where
   xadd := sadd
   xsub := ssub
   xmul := smulq
-  modq := fun x => x
+  -- `Exponent::modq` is the identity on `Scalar`, which is always reduced; the model's exponent
+  -- type is `Nat`, so reduce here (agrees with the identity on every value the Rust can hold;
+  -- without it `Lawful ristrettoOps` would be unsatisfiable: Lemmas/LawfulSplit.lean)
+  modq := fun x => x % R255.ell
   invq := scalarInvert
   subMod := ssub
   fromU64 := fun n => n % ell
